@@ -118,9 +118,14 @@ def make_inputs(kit, rng, ndims, big=True, blanks=True):
     nfa = rng.randint(2, 12 if big else 4)
     # names: plain, or awkward but legal (one a prefix of another, parentheses, dots, digits; a blank only where no tool of the
     # history takes names as one blank-separated string)
-    if rng.random() < 0.5:
+    r_ = rng.random()
+    if r_ < 0.4:
         pa = ["a%d" % i for i in range(12)]
         pb = ["b%d" % i for i in range(6)]
+    elif r_ < 0.55:
+        # letters outside ASCII (headers are UTF-8 text): every tool of the history writes, reads back and looks up these names
+        pa = ["temp\u00e9rature", "\u0394p", "\u03bc_t", "\u03c1", "\u0394T", "Y(H\u2082)", "\u00e91", "\u00f12", "\u00fc3", "\u00f84", "\u00e55", "\u00e76"]
+        pb = ["\u03c0", "\u0394q", "\u03c3", "\u03c4_w", "\u03ba", "\u03bb"]
     else:
         pa = ["temp", "temperature", "Y(H2)", "Y(H2O)", "rho.E", "x_velocity", "density", "density2", "I_R(CH4)", "T-1", "mag", "magvort"]
         pb = ["p", "pressure", "Y(O2)", "Y(O)", "avg_pressure", "divu"]
